@@ -15,7 +15,7 @@ n = len(metas)
 missed = sum(1 for d in metas if d.get("history", "").startswith("missed"))
 text = """### 0.7 Seeded changes written by fresh sub-agents
 
-In seven rounds, twenty sub-agents per round (one per property) were each given **only the text of their property** and a scratch git worktree
+In eight rounds, twenty sub-agents per round (one per property) were each given **only the text of their property** and a scratch git worktree
 of `/repo` under `/tmp`, and asked for two realistic changes that break the property, still compile, keep the pinned test suite green, and
 need something specific to manifest, each with a demonstration script (the second round asked to look beyond the most obvious edit sites; the
 third asked that at least one of the two changes *adds* code - a fast path, a cache, a de-duplication step, a changed data structure, a change in
@@ -30,14 +30,17 @@ a parser or a `.pest` grammar, a formatter, a conversion or `Default` impl, a re
 one-token slip: a dropped check, `<` for `<=`, `&&` for `||`, the wrong one of two similar names, an off-by-one; the seventh asked for an
 ordering / data-flow slip *between* steps - swapped pipeline steps, a stale clone, an accumulator reset per iteration, an iterator advanced
 once too often, a truncating `zip` - and for a well-meant modernisation at the type level: another collection type, a hand-written
-`PartialEq` / `Ord` / `Hash` on some of the fields, a derived order standing in for a relation, `dedup` for `unique`).
+`PartialEq` / `Ord` / `Hash` on some of the fields, a derived order standing in for a relation, `dedup` for `unique`; the eighth asked for
+a change in a *declarative artefact* - a `.pest` grammar, a Pratt table, the TPTP preamble, a `lazy_static` regex, a table of rewrite rules, a
+clap attribute, a lookup-table `match` - and for a slip in an iterator adaptor or index expression: `take_while` for `filter`, `skip` / `zip`
+/ `chunks` / `first` / `last` mix-ups).
 I confirmed every one of the %d changes in a scratch worktree (`tools/seeded.py confirm`: patch applies, crate builds, 140 + 1 tests pass with
 only the baseline UI failure, `demo.sh` exits 1 with the change and 0 without), then ran all 20 checks against each (`git -C /repo apply`,
 `./check Cxx`, `git -C /repo checkout -- .`). They are kept under `seeded/<id>/` (`patch.diff`, the demonstration with its inputs, the
 agent's `notes.md`, `meta.json`) and are part of the self-test catalogue of their property (`S-<id>`).
 
 **First runs: in rounds one and two 30 of 40 were reported by the check of their own property and 10 were not; in round three 7 of 40, in
-round four 6 of 40, in round five 14 of 40, in round six 17 of 40 and in round seven 3 of 40 were not** (%d of %d in total; most of the round-five and round-six
+round four 6 of 40, in round five 14 of 40, in round six 17 of 40, in round seven 3 of 40 and in round eight 12 of 40 were not** (%d of %d in total; most of the round-five and round-six
 misses were slips in shared code - the sort a collector tags a variable with, a conversion impl, a printer's precedence or relation table,
 the order of the file arguments - that the check of *another* property already caught: the clause is now shared, i.e. the rule that decides
 it runs under every property it is a necessary condition of; five of the round-six changes were caught by no check at all: the default sort
